@@ -1136,19 +1136,11 @@ def label(case, obs):
         ev = obs.get('dropped', 0) > 0
         return f'ba/{c}/' + ('dropped' if ev else 'nodrop')
     if k == 'sched':
-        sc = case['sched']
-        first = {}
-        overlap = False
-        inside = set()
-        for i in sc:
-            if i not in first:
-                first[i] = True
-                inside.add(i)
-                overlap = overlap or len(inside) > 1
-            else:
-                inside.discard(i)
+        runs = [i for j, i in enumerate(case['sched']) if j == 0 or case['sched'][j - 1] != i]
+        overlap = len(runs) != len(set(runs))         # some writer resumes after another one moved
+        merge = any(w['op'] == 'merge' and len(w['kvs']) > 1 for w in case['writers'])
         cap = case['cap']
-        return f'sched/{len(case["writers"])}w/' + ('overlap' if overlap else 'serial') + \
+        return f'sched/{len(case["writers"])}w/' + ('overlap' if overlap else 'serial') + ('/merge_in' if merge else '') + \
             ('/cap0' if cap == 0 else '/capNone' if cap is None else '/full' if len(case['init']) >= cap else '/room')
     if k == 'merge':
         refused = any(i.get('is_self') for i in obs.get('identity', []))
@@ -1199,6 +1191,15 @@ def shrink(case):
                 yield dict(case, writers=ws[:i] + ws[i + 1:], sched=[ren[j] for j in case['sched'] if j != i])
         for i in range(len(case['init'])):
             yield dict(case, init=case['init'][:i] + case['init'][i + 1:])
+        for i, w in enumerate(ws):
+            if w['op'] == 'merge' and len(w['kvs']) > 1:
+                for j in range(len(w['kvs'])):
+                    sc = list(case['sched'])
+                    for _ in (0, 1):
+                        if i in sc:
+                            sc.reverse(); sc.remove(i); sc.reverse()
+                    yield dict(case, writers=ws[:i] + [dict(w, kvs=w['kvs'][:j] + w['kvs'][j + 1:])] + ws[i + 1:],
+                               sched=sc)
         for i, w in enumerate(ws):
             if w['op'] == 'set' and w['v'] != {'t': 'int', 'v': 1}:
                 yield dict(case, writers=ws[:i] + [dict(w, v={'t': 'int', 'v': 1})] + ws[i + 1:])
